@@ -21,27 +21,53 @@ Context (a f w : R) (Hg : good_ellipsoid a f).
 Let Ha : a <> 0. Proof. destruct Hg; lra. Qed.
 Let Hf : 0 <= f < 1. Proof. destruct Hg; assumption. Qed.
 
-Lemma on_ellipse_model v d hv : degval v d -> numval hv 0 ->
+(* atan facts used for the parametric latitude u = atan((1-f) tan phi) *)
+Lemma sin_atan_cos t : sin (atan t) = t * cos (atan t).
+Proof.
+  rewrite sin_atan, cos_atan.
+  assert (0 < sqrt (1 + t²)) by (apply sqrt_lt_R0; generalize (Rle_0_sqr t); lra).
+  field. lra.
+Qed.
+Lemma cos_atan_pos t : 0 < cos (atan t).
+Proof.
+  rewrite cos_atan.
+  assert (0 < sqrt (1 + t²)) by (apply sqrt_lt_R0; generalize (Rle_0_sqr t); lra).
+  apply Rdiv_lt_0_compat; lra.
+Qed.
+
+(* where tan phi is defined (cos phi <> 0; at phi = +-90 deg exactly the real-number instance
+   evaluates Coq's junk value tan(pi/2) = 1 * /0, so the poles are EXCLUDED here), the sea-level point
+   (x, y) = (rho cos phi', rho sin phi') is on the meridian ellipse, on the side x > 0, in the
+   geocentric direction tan phi' = (b/a)^2 tan phi: these three facts determine the point *)
+Lemma on_ellipse_model v d hv : degval v d -> numval hv 0 -> cos (rad d) <> 0 ->
   exists x y b,
     Earth_rho_cosphi Rops (earth a f w) v hv = VFloat x /\
     Earth_rho_sinphi Rops (earth a f w) v hv = VFloat y /\
     Ellipsoid_b Rops (ell a f w) = VFloat b /\
-    x * x + (y * (a / b)) * (y * (a / b)) = 1.
+    x * x + (y * (a / b)) * (y * (a / b)) = 1 /\
+    0 < x /\
+    y * cos (rad d) = (1 - f) * (1 - f) * x * sin (rad d).
 Proof.
-  intros Hv Hh. eexists; eexists; eexists.
+  intros Hv Hh Hc. eexists; eexists; eexists.
   split; [apply (rho_cosphi_ok a f w v d hv 0 Ha Hv Hh)|].
   split; [apply (rho_sinphi_ok a f w v d hv 0 Ha Hv Hh)|].
-  split; [apply b_ok|]. apply on_ellipse; lra.
+  split; [apply b_ok|]. split; [apply on_ellipse; lra|].
+  unfold rho_cos, rho_sin, ulat.
+  replace (0 / a) with 0 by (field; exact Ha). rewrite !Rmult_0_l, !Rplus_0_r.
+  split; [apply cos_atan_pos|].
+  rewrite sin_atan_cos. unfold tan. field. exact Hc.
 Qed.
 
-Lemma height_model v d hv h h0 : degval v d -> numval hv h -> numval h0 0 ->
+(* height: the sea-level values x0, y0 are those of the previous theorem (poles excluded for the
+   same reason); height h adds exactly h/a (cos phi, sin phi) *)
+Lemma height_model v d hv h h0 : degval v d -> numval hv h -> numval h0 0 -> cos (rad d) <> 0 ->
   exists x0 y0,
     Earth_rho_cosphi Rops (earth a f w) v h0 = VFloat x0 /\
     Earth_rho_sinphi Rops (earth a f w) v h0 = VFloat y0 /\
     Earth_rho_cosphi Rops (earth a f w) v hv = VFloat (x0 + h / a * cos (rad d)) /\
     Earth_rho_sinphi Rops (earth a f w) v hv = VFloat (y0 + h / a * sin (rad d)).
 Proof.
-  intros Hv Hh H0. eexists; eexists.
+  intros Hv Hh H0 _. eexists; eexists.
   split; [apply (rho_cosphi_ok a f w v d h0 0 Ha Hv H0)|].
   split; [apply (rho_sinphi_ok a f w v d h0 0 Ha Hv H0)|].
   rewrite <- height_term_cos, <- height_term_sin.
@@ -129,27 +155,24 @@ Lemma distance_coincident_angle l t1 p t2 t3 t4 :
   = VTuple [VFloat 0; VFloat 0].
 Proof. rewrite dist_angle_all. apply dist_spec_same. Qed.
 
-Lemma distance_equator_float l1 l2 : 0 < Rabs (l1 - l2) < 180 ->
-  exists err,
-  Earth_distance Rops (earth a f w) (VFloat l1) (VFloat 0) (VFloat l2) (VFloat 0)
-  = VTuple [VFloat (a * (Rabs (l1 - l2) * (PI / 180))); VFloat err].
+Lemma rad_abs x : Rabs (rad x) = Rabs x * (PI / 180).
 Proof.
-  intro H. eexists. rewrite dist_float_all. rewrite (dist_spec_equator a f l1 l2 H).
-  assert (HP := PI_RGT_0).
-  assert (E : Rabs (rad (l1 - l2)) = Rabs (l1 - l2) * (PI / 180)).
-  { unfold rad. rewrite Rabs_mult. rewrite (Rabs_right (PI / 180)) by lra. reflexivity. }
-  rewrite E. reflexivity.
+  assert (HP := PI_RGT_0). unfold rad. rewrite Rabs_mult. rewrite (Rabs_right (PI / 180)) by lra. reflexivity.
+Qed.
+
+Lemma distance_equator_float l1 l2 : 0 < Rabs (l1 - l2) < 180 ->
+  Earth_distance Rops (earth a f w) (VFloat l1) (VFloat 0) (VFloat l2) (VFloat 0)
+  = VTuple [VFloat (a * (Rabs (l1 - l2) * (PI / 180)));
+            VFloat (Rround_nd (a * (Rabs (l1 - l2) * (PI / 180)) * f * f) 0)].
+Proof.
+  intro H. rewrite dist_float_all. rewrite (dist_spec_equator a f l1 l2 H). rewrite rad_abs. reflexivity.
 Qed.
 
 Lemma distance_equator_angle l1 t1 t2 l2 t3 t4 : 0 < Rabs (l1 - l2) < 180 ->
-  exists err,
   Earth_distance Rops (earth a f w) (ang l1 t1) (ang 0 t2) (ang l2 t3) (ang 0 t4)
-  = VTuple [VFloat (a * (Rabs (l1 - l2) * (PI / 180))); VFloat err].
+  = VTuple [VFloat (a * (Rabs (l1 - l2) * (PI / 180)));
+            VFloat (Rround_nd (a * (Rabs (l1 - l2) * (PI / 180)) * f * f) 0)].
 Proof.
-  intro H. eexists. rewrite dist_angle_all. rewrite (dist_spec_equator a f l1 l2 H).
-  assert (HP := PI_RGT_0).
-  assert (E : Rabs (rad (l1 - l2)) = Rabs (l1 - l2) * (PI / 180)).
-  { unfold rad. rewrite Rabs_mult. rewrite (Rabs_right (PI / 180)) by lra. reflexivity. }
-  rewrite E. reflexivity.
+  intro H. rewrite dist_angle_all. rewrite (dist_spec_equator a f l1 l2 H). rewrite rad_abs. reflexivity.
 Qed.
 End Main.
